@@ -96,15 +96,20 @@ Strip(e) == LET RECURSIVE S(_)
             IN S(e)
 ValueLess(e) == Strip(e).op \in {"void", "cut", "and", "not", "eof", "fail", "skipgroup"}
 Encloser(e) == Strip(e).op \in {"opt", "star", "plus", "join", "and", "not", "skipgroup", "skipto"}
+RECURSIVE OddReturn(_)
+OddReturn(e) == CASE e.op \in {"void", "and"} -> TRUE               \* the interpreter returns () / the inner value, the AST gets nothing
+                  [] e.op \in Nary -> \E i \in 1..Len(e.es) : OddReturn(e.es[i])
+                  [] e.op \in {"group", "opt", "named", "namedlist", "ovr", "ovrlist"} -> OddReturn(e.e)
+                  [] OTHER -> FALSE
 RECURSIVE Unspec(_)
 Unspec(e) ==
   CASE e.op \in {"named", "namedlist", "ovr", "ovrlist"} ->
-          \/ ValueLess(e.e)                                            \* U1: x:()  x:&e  x:$  x:~
+          \/ ValueLess(e.e) \/ OddReturn(e.e)                         \* U1: x:()  x:&e  x:$  x:~  x:('a' ())
           \/ (e.op \in {"ovr", "ovrlist"} /\ HasOvr(e.e))              \* U4: nested override
           \/ (e.op \in {"named", "namedlist"} /\ HasNames(e.e))        \* U7: names under a name
           \/ Unspec(e.e)
-    [] e.op \in {"star", "plus"} -> Nullable(e.e) \/ Unspec(e.e)      \* U3: iteration that consumes nothing
-    [] e.op = "join" -> Nullable(e.e) \/ Unspec(e.e) \/ Unspec(e.sep) \/ HasNames(e.sep)
+    [] e.op \in {"star", "plus"} -> Nullable(e.e) \/ NoItems(e.e, {}) \/ Unspec(e.e)   \* U3: iteration that consumes / yields nothing
+    [] e.op = "join" -> Nullable(e.e) \/ NoItems(e.e, {}) \/ NoItems(e.sep, {}) \/ Unspec(e.e) \/ Unspec(e.sep) \/ HasNames(e.sep)
     [] e.op = "opt" -> (Encloser(e.e) /\ HasNames(e.e)) \/ Unspec(e.e) \* U5: [[x:e]] [{x:e}]
     [] e.op \in {"and", "not", "skipgroup"} -> HasNames(e.e) \/ Unspec(e.e)   \* U2b: names under a lookahead / (?: )
     [] e.op = "alt" -> \E i \in 1..Len(e.es) : Unspec(e.es[i]) \/ (Encloser(e.es[i]) /\ HasNames(e.es[i]))
